@@ -1,6 +1,7 @@
 package verifcheck
 
 import (
+	"flag"
 	"fmt"
 	"runtime/debug"
 	"sort"
@@ -283,3 +284,5 @@ func uniq(s []string) []string {
 	}
 	return out
 }
+
+func setFlag(name, value string) error { return flag.Set(name, value) }
